@@ -17,6 +17,9 @@ Two families of streams, one oracle:
 * store faults (driver and executor streams): the store the post-processor writes to raises `RallyError` at a chosen run
   while a throughput record / another record is written or in `flush()`; model: the race aborts (`driverRunF`);
   oracle: every reported value counts every operation exactly once - or nothing more is reported.
+* transport: whole simulated races (harness/sim_race.py, scenarios of c01, pipeline projection of c07 - read-only) judged with
+  the shipments taken to be everything the samplers accepted, and the direct transport at sizes up to 2^17 with throughput as
+  the observable (see the comments at `run_race` / `run_transport_direct`).
 Returned tuples / records are compared exactly (`float.as_integer_ratio`).  The direct oracle recomputes, with
 `Fraction`s and without any bucket logic, what every emitted value has to be: (sum of the operations of
 all samples fed so far except those sorted after the emitting sample in the current batch, each once) /
@@ -34,7 +37,9 @@ RULE = ("sample streams of 1-3 tasks x 1-4 clients (warm-up then normal samples,
         "random incl. runs with an empty buffer; boundary stream: every placement of one or two runs between two clients' samples) + a final far-future "
         "flush sample per task that makes the carried state observable, (c) scripted runner results (throughput absent/None/0/0.0/-0.0/5e-324/1e300/2^70/"
         "negative/ordinary, weight and unit present or defaulted; iteration / runner-completes / time-period tasks, the latter with ramp-up) through real "
-        "execute_single/AsyncExecutor/Sampler into (b); (b) and (c) with store faults (put throughput / put other / flush, any run); a case is non-trivial when at least one call starts with carried-over samples; "
+        "execute_single/AsyncExecutor/Sampler into (b); (b) and (c) with store faults (put throughput / put other / flush, any run); (d) whole simulated races (over-committed parallel elements, "
+        "time-based tasks, ramp-up, pickled messages, periodic post-processing; branch counters in the evidence) and the direct transport at 2^0..2^17 "
+        "samples; a case is non-trivial when at least one call starts with carried-over samples; "
         "signature = (model branch tags, cutting mode, number of tasks, oracle outcome[, samples after a batch with a 100 % sample])")
 TRUSTED = [
     "IEEE-754 model RallyModel/Dbl.lean for `a - b`, `float(count)` and `count / interval` (validated bit-for-bit against CPython; the floats "
@@ -1194,6 +1199,363 @@ def run_exec_case(ctx, case):
     _drive(ctx, case, events)
 
 
+# ---------------------------------------------------------------------------------------------
+# the transport between executor and calculator: Sampler -> Worker (wake-ups, join points) -> UpdateSamples -> Driver
+# ---------------------------------------------------------------------------------------------
+# (1) whole simulated races on the lead's actor simulator (harness/sim_race.py, scenarios of harness/c01.py, projection of the
+#     trace to pipeline events of harness/c07.py - all used read-only).  The expectation does NOT come from what the workers
+#     shipped: at every UpdateSamples a worker sends, the shipment is *taken to be* everything its samplers accepted since its
+#     previous shipment (the samples as they were offered to Sampler.add), whatever the message really contains; deliveries
+#     fill the driver's buffer, post-processing runs cut it into batches.  These ideal batches go to the Lean model (`pp_run`)
+#     and to the direct oracle; what the race's post-processor stored as throughput is compared with both, and at the end of
+#     the race every accepted sample must have been in a batch and every throughput record must be at race control.
+def gen_races(ctx):
+    from harness import c01
+
+    rng = ctx.rng
+    for _ in range(ctx.budget):
+        sc = c01.gen_scenario(rng)
+        if rng.random() < 0.25:
+            # a long element so that the driver's periodic post-processing (every 30 wake-ups of 1 s) fires mid-task
+            sc["schedule"].append({"leaf": {"name": "long", "clients": rng.choice([1, 2, 3]), "iterations": rng.choice([18, 24, 40])}})
+            sc["svc"]["long"] = rng.choice([0.25, 2.0])
+        yield {"scenario": sc, "seed": rng.randrange(1 << 30)}
+
+
+def run_race(ctx, case):
+    import collections
+
+    from harness import c01, c07
+
+    sc = case["scenario"]
+    sim, res = c01.run_sim(case)
+    tidx, _elem, spec = c01.task_index(sc)
+    evs = c07.pipeline_events(sim)
+    info = sim.sample_info
+
+    def msample(sid):
+        i = info[sid]
+        return {"task": tidx[i["task"]], "abs": fs(i["abs"]), "rel": fs(i["rel"]), "period": fs(i["period"]), "ops": int(i["ops"]), "unit": i["unit"],
+                "normal": bool(i["normal"]), "tput": None if i["tput"] is None else fs(i["tput"])}
+
+    queued = collections.defaultdict(list)       # accepted by a worker's samplers, not yet (ideally) shipped
+    inflight = collections.defaultdict(collections.deque)
+    buf = []
+    orc = Oracle(ctx, {"exact": False})
+    model_events, impl_runs = [], []
+    ci = 0
+    accepted = 0
+    task_switch_without_join = False
+    for e in evs:
+        if e["e"] == "request":
+            if e["obs"]["accepted"] and e["sid"] in info:
+                queued[e["w"]].append(e["sid"])
+                accepted += 1
+        elif e["e"] == "ship":
+            inflight[e["w"]].append(queued[e["w"]])
+            queued[e["w"]] = []
+        elif e["e"] == "deliverU":
+            if not inflight[e["w"]]:
+                orc.fail("transport:delivery-without-shipment", "an UpdateSamples message arrived that no worker sent", None, e["w"])
+                continue
+            content = [msample(sid) for sid in inflight[e["w"]].popleft()]
+            model_events.append(content)
+            buf += content
+        elif e["e"] == "postprocess":
+            model_events.append("pp")
+            recs = []
+            try:
+                for tname, vals in (e.get("tput") or []):
+                    for a, r, nrm, v, u in vals:
+                        recs.append([tidx[tname], [fs(a), fs(r), bool(nrm), canon_value(v), u]])
+            except Exception as ex:  # what the implementation produced cannot be read: a difference, not a harness error
+                ctx.diff("unreadable throughput values", None, repr(ex))
+            impl_runs.append(recs)
+            groups = []
+            for smp in buf:
+                if smp["task"] not in groups:
+                    groups.append(smp["task"])
+            stray = [r for r in recs if r[0] not in groups]
+            if stray:
+                orc.fail("task-keys", f"run {ci}: throughput values for tasks without samples in the batch", groups, stray[:3])
+            if buf:
+                orc.step(ci, buf, [[k, [r[1] for r in recs if r[0] == k]] for k in groups])
+            buf = []
+            ci += 1
+            if orc.stale_run() >= STALE_CAP:
+                break
+    finished = res == "until"
+    if finished:
+        left = {"never shipped": sum(len(v) for v in queued.values()), "shipments never delivered": sum(len(c) for q in inflight.values() for c in q),
+                "delivered but never post-processed": len(buf)}
+        if any(left.values()):
+            lost = [sid for v in queued.values() for sid in v][:5]
+            orc.fail("transport:operations-never-reported", "the race is complete but samples that the samplers accepted never reached a post-processing batch "
+                     "(their operations are in no throughput value)", 0, {**left, "examples": [info[sid]["task"] for sid in lost]})
+        # the end of the pipeline: the throughput records at race control are the values the post-processor computed
+        want = sorted((tk, v[3], v[4], "normal" if v[2] else "warmup") for recs in impl_runs for tk, v in recs)
+        try:
+            got = sorted((tidx[d["task"]], canon_value(d["value"]), d["unit"], d["sample-type"]) for d in sim.rc_docs if d.get("name") == "throughput")
+        except Exception as ex:
+            got = repr(ex)
+        if got != want:
+            orc.fail("transport:throughput-records-at-race-control", "the throughput records race control holds are not the values computed during the race",
+                     len(want), len(got) if isinstance(got, list) else got)
+    if model_events:
+        m = ctx.model("throughput", "pp_run", {"events": model_events})
+        if "r" not in m:
+            raise HarnessError(f"model rejected the case: {m}")
+        tags = sorted(m.get("tags", []))
+        if m["r"]["runs"] != impl_runs:
+            for i, (a, b) in enumerate(zip(m["r"]["runs"], impl_runs)):
+                if a != b:
+                    ctx.diff(f"post-processing run {i} of the race", a[:6], b[:6])
+                    break
+            else:
+                ctx.diff("number of runs", len(m["r"]["runs"]), len(impl_runs))
+    else:
+        tags = []
+    # branches the property's quantifier names: how often are they reached
+    over = any("par" in el and el.get("clients") is not None and el["clients"] < sum(t["clients"] for t in el["par"]) for el in sc["schedule"])
+    timed = any(t.get("time_period") for t in spec.values())
+    ramp = any(t.get("ramp_up_time_period") for t in spec.values())
+    ctx.count("races")
+    ctx.count("result:" + str(res))
+    ctx.count("samples", accepted)
+    ctx.count("runs", ci)
+    ctx.count("outcome:" + orc.outcome)
+    for name, flag in (("over-committed-parallel", over), ("time-based-task", timed), ("ramp-up", ramp), ("pickled-messages", sc.get("pickle_messages")),
+                       ("periodic-post-processing-mid-task", any(t == "long" for t in spec))):
+        if flag:
+            ctx.count("branch:" + name)
+    ctx.sig([tags, orc.outcome, over, timed, ramp, str(res), min(ci, 6)], nontrivial=accepted > 3)
+
+
+# (2) the same transport driven directly so that sizes beyond every constant in sight are reachable (queue capacity 2^20 as the
+#     Worker configures it, 16384 = Sampler's default, 10^k): real Sampler.add, real Worker.send_samples on an instance of the
+#     real Worker class, real UpdateSamples messages, real Driver.update_samples / post_process_samples, real post-processor and
+#     store.  Throughput is the observable: every record must be float(ops of the samples that reached a batch up to the
+#     emitting one) / elapsed, and after the final flush of the pipeline a far-future sample's record must count EVERY
+#     operation that was executed, whatever the shipping / batching history.
+DIRECT_T0 = Fraction(3999, 4)  # every sample has absolute_time - time_period = 999.75: the task start
+
+
+def direct_ops(sid):
+    return 1 + (sid * 7919) % 5
+
+
+def gen_transport_direct(ctx):
+    import math
+
+    rng = ctx.rng
+    for _ in range(ctx.budget):
+        r = rng.random()
+        if r < 0.2:
+            n = int(2 ** rng.uniform(14, 17.2))      # around and beyond 16384, 32768, 10^5
+        elif r < 0.3:
+            n = rng.choice([16383, 16384, 16385, 32768, 32769, 9999, 10000, 10001, 65537])
+        else:
+            n = int(2 ** rng.uniform(0, 12))
+        workers = rng.choice([1, 1, 2, 3])
+        script, left = [], n
+        while left > 0:
+            b = min(left, max(1, int(2 ** rng.uniform(0, math.log2(left + 1)))))
+            script.append(["requests", rng.randrange(workers), b])
+            left -= b
+            r = rng.random()
+            if r < 0.45:
+                w = rng.randrange(workers)
+                script.append(["ship", w])
+                if rng.random() < 0.7:
+                    script.append(["deliver", w])
+            elif r < 0.55:
+                script.append(["deliver", rng.randrange(workers)])
+            if r < 0.25:
+                script.append(["postprocess"])
+        yield {"n": n, "workers": workers, "script": script, "warmup": rng.choice([0, 0, n // 3, n]), "downsample": rng.choice([1, 1, 2]),
+               "queue": rng.choice(["worker-default", "worker-default", "sampler-default"])}
+
+
+def run_transport_direct(ctx, case):
+    import bisect
+    import collections
+    import logging
+    import math
+
+    from esrally import metrics, track
+    from esrally.driver import driver
+
+    real = lambda f: getattr(f, "__wrapped__", f)  # the simulator's observation wrappers may be installed in this process
+    sampler_add = real(driver.Sampler.add)
+    post_process = real(driver.Driver.post_process_samples)
+    cfg, store = _new_store()
+    spy = []
+    orig = store.put_value_cluster_level
+
+    def put_value_cluster_level(*a, **kw):
+        if kw.get("name") == "throughput":
+            spy.append(kw)
+        return orig(*a, **kw)
+
+    store.put_value_cluster_level = put_value_cluster_level
+    W = case["workers"]
+    task = track.Task("task-0", track.Operation("op-0", "c06-direct"), clients=W)
+    sent = []
+    workers = []
+    for w in range(W):
+        ws = object.__new__(driver.Worker)  # the REAL class: helpers a refactoring adds are there
+        q = driver.Sampler(start_timestamp=0.0, buffer_size=1 << 20) if case["queue"] == "worker-default" else driver.Sampler(start_timestamp=0.0)
+        ws.__dict__.update(sampler=q, worker_id=w, driver_actor="driver", send=lambda dst, m: sent.append(m), logger=logging.getLogger("esrally.driver.driver"))
+        workers.append(ws)
+    d = driver.Driver(None, cfg)
+    d.metrics_store = store
+    d.sample_post_processor = driver.SamplePostprocessor(store, case.get("downsample", 1), {}, {})
+    calc = d.sample_post_processor.throughput_calculator
+    if hasattr(calc.calculate, "__wrapped__") or hasattr(type(calc).calculate, "__wrapped__"):
+        import types as _t
+
+        calc.calculate = _t.MethodType(real(driver.ThroughputCalculator.calculate), calc)
+    small = case["n"] <= 1500
+    warm = case["warmup"]
+    sid = 0
+    queued = collections.defaultdict(list)     # ideal transport: accepted, not yet shipped
+    inflight = collections.defaultdict(collections.deque)
+    pending_msgs = collections.defaultdict(collections.deque)
+    buf = []                                   # ideal driver buffer (sids)
+    counted_ops, uncounted = 0, []             # reference counting: ops in a value so far; sids fed but in no value yet (ascending)
+    accepted_ops = 0
+    model_events, impl_runs = [], []
+    outcome = ["ok"]
+    seen_normal = [False]
+    any_normal_value = [False]
+
+    def fail(cls, what, exp, obs):
+        outcome[0] = cls
+        ctx.fail(cls, what, exp, obs)
+
+    def sample_fields(s):
+        t = Fraction(s, 1024)
+        return 1000 + t, t, t + Fraction(1, 4), direct_ops(s), s > warm
+
+    def msample(s):
+        a, rel, period, ops, normal = sample_fields(s)
+        return {"task": 0, "abs": fs(a), "rel": fs(rel), "period": fs(period), "ops": ops, "unit": "docs", "normal": normal, "tput": None}
+
+    def add(w, s, flush=False):
+        a, rel, period, ops, normal = sample_fields(s)
+        if flush:
+            a, period, ops, normal = a + 100000, period + 100000, 1, True
+        before = workers[w].sampler.q.qsize()
+        sampler_add(workers[w].sampler, task, w, metrics.SampleType.Normal if normal else metrics.SampleType.Warmup, {}, float(a), float(rel), 0.5, 0.25, 0.125,
+                    None, ops, "docs", float(period), None)
+        return workers[w].sampler.q.qsize() > before
+
+    def do(step):
+        nonlocal sid, counted_ops, uncounted, buf, accepted_ops
+        if step[0] == "requests":
+            _, w, b = step
+            for _ in range(b):
+                sid += 1
+                if add(w, sid):
+                    queued[w].append(sid)
+                    accepted_ops += direct_ops(sid)
+        elif step[0] == "ship":
+            w = step[1]
+            n0 = len(sent)
+            driver.Worker.send_samples(workers[w])
+            # ideal: a shipment carries everything accepted since the previous one, whatever the message contains
+            if queued[w] or len(sent) > n0:
+                inflight[w].append(queued[w])
+                queued[w] = []
+                pending_msgs[w].append(sent[n0:])
+        elif step[0] == "deliver":
+            w = step[1]
+            if inflight[w]:
+                content = inflight[w].popleft()
+                for m in pending_msgs[w].popleft():
+                    driver.Driver.update_samples(d, m.samples)
+                buf += content
+                if small:
+                    model_events.append([msample(s) for s in content])
+        elif step[0] == "postprocess":
+            n0 = len(spy)
+            post_process(d)
+            recs = spy[n0:]
+            if small:
+                model_events.append("pp")
+                impl_runs.append([[0, [fs(kw["absolute_time"]), fs(kw["relative_time"]), kw["sample_type"] == metrics.SampleType.Normal, canon_value(kw["value"]), kw["unit"]]]
+                                  for kw in recs])
+            merged = sorted(set(uncounted) | set(buf)) if buf else uncounted
+            if len(merged) != len(uncounted) + len(buf):
+                raise HarnessError("direct transport: a sample id twice in the reference")
+            buf = []
+            pos = 0
+            for kw in recs:
+                rel = Fraction(kw["relative_time"])
+                a = Fraction(kw["absolute_time"])
+                es = rel * 1024
+                j = bisect.bisect_left(merged, es, pos) if es.denominator == 1 else len(merged)
+                if j >= len(merged) or merged[j] != es:
+                    fail("unknown-emitter", f"a throughput value is attributed to no sample of the batch (n={case['n']})", None, [fs(a), fs(rel)])
+                    break
+                n_ops = counted_ops + sum(direct_ops(s) for s in merged[pos: j + 1])
+                counted_ops = n_ops
+                pos = j + 1
+                flushrec = a > 50000
+                want = Fraction(n_ops + (1 - direct_ops(int(es)) if flushrec else 0)) / (a - DIRECT_T0)
+                if kw["unit"] != "docs/s":
+                    fail("unit", "unit is not '<ops unit>/s'", "docs/s", kw["unit"])
+                if kw["value"] is None or Fraction(kw["value"]) != Fraction(float(want)):
+                    fail("rate-mismatch", f"a throughput value is not (operations of the samples that reached a batch up to the emitting one, each once) / elapsed "
+                         f"(n={case['n']}, workers={W})", {"ops": str(want * (a - DIRECT_T0)), "value": fs(Fraction(float(want)))}, {"value": canon_value(kw["value"])})
+                    break
+                if kw["sample_type"] == metrics.SampleType.Normal:
+                    any_normal_value[0] = True
+            uncounted = merged[pos:]
+
+    for step in case["script"]:
+        do(step)
+    # the end of the task: every worker ships once (as at a join point), everything is delivered and post-processed, then one
+    # far-future sample goes the same way: its record counts every operation that was executed
+    def drain():
+        for w in range(W):
+            do(["ship", w])
+        for w in range(W):
+            while inflight[w]:
+                do(["deliver", w])
+        do(["postprocess"])
+
+    drain()
+    left_in_queues = sum(ws.sampler.q.qsize() for ws in workers)
+    sid += 1
+    flush_sid = sid
+    n0 = len(spy)
+    if add(0, flush_sid, flush=True):
+        queued[0].append(flush_sid)
+    drain()
+    last = spy[-1] if len(spy) > n0 else None
+    a_flush = 1000 + Fraction(flush_sid, 1024) + 100000
+    want = Fraction(accepted_ops + 1) / (a_flush - DIRECT_T0)
+    if last is None or last["value"] is None or Fraction(last["value"]) != Fraction(float(want)):
+        fail("transport:operations-not-counted", f"after every worker has shipped and the driver has post-processed everything, the last throughput value of the task does not "
+             f"count every executed operation (n={case['n']}, workers={W}, still queued at the workers: {left_in_queues})",
+             {"ops": accepted_ops + 1, "value": fs(Fraction(float(want)))}, {"value": None if last is None else canon_value(last["value"])})
+    if small:
+        m = ctx.model("throughput", "pp_run", {"events": model_events})
+        if "r" not in m:
+            raise HarnessError(f"model rejected the case: {m}")
+        # the flush sample of the reference has other fields than sample_fields: compare the runs before it
+        k = len(impl_runs) - 1
+        if m["r"]["runs"][:k] != impl_runs[:k]:
+            ctx.diff("post-processing runs (direct transport)", [r[:4] for r in m["r"]["runs"][:k]][:4], [r[:4] for r in impl_runs[:k]][:4])
+    ctx.count("direct-samples", case["n"])
+    ctx.count("outcome:" + outcome[0])
+    for bound in (16384, 32768, 100000):
+        if case["n"] > bound:
+            ctx.count(f"size>{bound}")
+    ctx.sig(["direct", int(math.log2(case["n"])) // 2, W, case["queue"], case["downsample"], (warm > 0) + (warm >= case["n"]), outcome[0]], nontrivial=case["n"] > 3)
+
+
 def gen_sort(ctx):
     rng = ctx.rng
     for _ in range(ctx.budget):
@@ -1220,4 +1582,6 @@ STREAMS = [
     Stream("driver_dyadic", gen_driver_dyadic, run_driver_case, quick=6000, thorough=120000, shards=16),
     Stream("driver_floats", gen_driver_floats, run_driver_case, quick=1500, thorough=30000, shards=8),
     Stream("executor_to_store", gen_exec, run_exec_case, quick=2400, thorough=40000, shards=16),
+    Stream("races_to_store", gen_races, run_race, quick=640, thorough=60000, shards=16),
+    Stream("transport_direct_sizes", gen_transport_direct, run_transport_direct, quick=160, thorough=8000, shards=16),
 ]
